@@ -251,7 +251,7 @@ SEARCH_MODELLED = ["search/alphabeta.go: AlphaBeta.Search, runAlphaBeta.search; 
                    "transposition.go (sequential reading); board/movelist.go + container/heap Init/Pop -> Model.Search, Model.TT, Model.MoveList"]
 
 PROPS["C13"] = dict(
-    modules=["Morlock.Props.C13", "Morlock.Props.C13Window", "Morlock.Props.C09"],
+    modules=["Morlock.Props.C13", "Morlock.Props.C13Engines", "Morlock.Props.C13Window", "Morlock.Props.C09"],
     streams=["c13"],
     timeout=dict(quick=900, thorough=6000),
     level_text="Lean theorems (every Game, move-determined exploration, depth and window with K+d <= 127 - the int8 mate-distance limit made explicit): with no table and no halt the "
@@ -271,7 +271,7 @@ PROPS["C13"] = dict(
 )
 
 PROPS["C03"] = dict(
-    modules=["Morlock.Props.C03", "Morlock.Props.C13", "Morlock.Props.C09"],
+    modules=["Morlock.Props.C03", "Morlock.Props.C13", "Morlock.Props.C13Engines", "Morlock.Props.C09"],
     streams=["c03"],
     timeout=dict(quick=900, thorough=6000),
     level_text="Lean theorems (every Game, every MOVE-DETERMINED exploration (priority and filter are functions of the move: full, no-under-promotion, captures-only), every leaf "
